@@ -94,6 +94,16 @@ Theorem C02_option_defaults_from_source :
 Proof. exact (conj (conj (proj1 ser_none_from_source) (proj1 (proj2 ser_none_from_source)))
                    (conj (proj1 de_none_from_source) (proj1 (proj2 de_none_from_source)))). Qed.
 
+From Peppi Require Proofs.ReaderTies Proofs.WriterTies.
+(* the reader model these theorems speak about is the one regenerated from the source on this run: one-shot read, every incremental
+   entry point, the event dispatch with the splitter, the Game Start wiring, the metadata reader (Proofs/ReaderTies.v reader_tied) *)
+Theorem C02_reader_is_the_source : ReaderTies.reader_tied.
+Proof. exact ReaderTies.reader_tied_holds. Qed.
+(* the writer model these theorems speak about is the one regenerated from the source on this run: the statement sequence of write(),
+   the payload-size table, the frame counts, the frame writer, the gecko blocks, the metadata writer (Proofs/WriterTies.v writer_tied) *)
+Theorem C02_writer_is_the_source : WriterTies.writer_tied.
+Proof. exact WriterTies.writer_tied_holds. Qed.
+
 Print Assumptions C02_roundtrip.
 Print Assumptions C02_full_chain.
 Print Assumptions C02_write_refuses_only_new_versions.
@@ -106,3 +116,5 @@ Print Assumptions C02_frame_import_positions_from_source.
 Print Assumptions C02_slpp_writer_from_source.
 Print Assumptions C02_slpp_reader_assembly_from_source.
 Print Assumptions C02_option_defaults_from_source.
+Print Assumptions C02_reader_is_the_source.
+Print Assumptions C02_writer_is_the_source.
